@@ -55,7 +55,7 @@ def session_worker(args):
             out.append(r)
             continue
         cfg = s["cfg"]
-        r["cfg"] = {k: cfg.get(k) for k in ("which", "obs", "loss_type", "mode", "N", "G", "q", "M", "cont", "sigma", "constraint")}
+        r["cfg"] = {k: cfg.get(k) for k in ("which", "obs", "loss_type", "mode", "N", "G", "q", "M", "cont", "cont_tighter", "restart", "sigma", "constraint", "x0")}
         r["cfg"]["priors"] = [(p["name"], p["dist"], list(p["args"]), p["logscale"], p["is_state"]) for p in cfg["table"]]
         if s["error"]:
             r["error"] = s["error"]
@@ -125,7 +125,7 @@ def run(rep, tier, seed):
         if res.invariant_violated:
             raise report.Machinery("Abc.tla violates %s (design error)" % res.invariant_violated)
         rep.add_tlc("MC_Abc(%s)" % mode, res, exhaustive=True)
-        for act in ("Start", "Trial", "EndGeneration", "Continue"):
+        for act in ("Start", "Trial", "EndGeneration", "Continue", "Restart"):
             if res.coverage.get(act, [0, 0])[1] == 0:
                 raise report.Machinery("action %s never taken in MC_Abc (%s)" % (act, mode))
     neg = tlc.run("MC_Abc", cfg="MC_Abc_neg", workers=1, timeout=300)
